@@ -88,6 +88,7 @@ func isPlainStr(n *Node) bool {
 // intValue picks the integer of a leaf (never zero: a zero optional field is omitted by Marshal).
 func intValue(n *Node, v, ctr int) *big.Int {
 	c := int64(ctr)
+	v = v % 3 // variant 3 (optional members absent, one element) has the leaf values of variant 0
 	switch {
 	case n.has("default7"):
 		return big.NewInt([]int64{9 + c, 11 + c, -3 - c}[v])
@@ -112,7 +113,7 @@ func intValue(n *Node, v, ctr int) *big.Int {
 }
 
 func oidValue(v, ctr int) []int {
-	switch v {
+	switch v % 3 {
 	case 0:
 		return []int{1, 2, 840, 113549, 1 + ctr}
 	case 1:
@@ -155,10 +156,54 @@ func (vn *VNode) setTime(t time.Time, generalized bool) {
 	vn.Canon = cTime(t)
 }
 
+// TimeForm is the time form of a case (Asn1Lax.tla, TimeForms): the wall-clock time M minutes from 1 January
+// 00:00 of year B, written with the zone offset Off minutes.  B = 0: none.
+type TimeForm struct {
+	B   int `json:"b"`
+	M   int `json:"m"`
+	Off int `json:"off"`
+}
+
+// setTimeForm writes the time of form tf (plus ctr seconds, so that the elements of a SET OF differ) digit by
+// digit - without time.Format - as UTCTime (two-digit year) or GeneralizedTime.
+func (vn *VNode) setTimeForm(tf *TimeForm, ctr int, generalized bool) {
+	// wall clock: 1 January of year B, 00:00, plus M minutes (|M| < one day)
+	year, month, day, mins := tf.B, 1, 1, tf.M
+	if mins < 0 {
+		year, month, day, mins = tf.B-1, 12, 31, 24*60+tf.M
+	}
+	sec := ctr % 50
+	var s string
+	if generalized {
+		s = fmt.Sprintf("%04d", year)
+	} else {
+		if year < 1950 || year >= 2050 {
+			panic(fmt.Sprintf("no UTCTime for the year %d", year))
+		}
+		s = fmt.Sprintf("%02d", year%100)
+	}
+	s += fmt.Sprintf("%02d%02d%02d%02d%02d", month, day, mins/60, mins%60, sec)
+	switch {
+	case tf.Off == 0:
+		s += "Z"
+	case tf.Off > 0:
+		s += fmt.Sprintf("+%02d%02d", tf.Off/60, tf.Off%60)
+	default:
+		s += fmt.Sprintf("-%02d%02d", -tf.Off/60, -tf.Off%60)
+	}
+	vn.Content = []byte(s)
+	// the instant: the same wall clock read as UTC, minus the offset
+	t := time.Date(year, time.Month(month), day, mins/60, mins%60, sec, 0, time.UTC).Add(-time.Duration(tf.Off) * time.Minute)
+	vn.Canon = fmt.Sprintf("t(%d,%d,%d)", t.Unix(), 0, tf.Off*60)
+}
+
 // leaf fills identifier, content and canonical value of a leaf for variant v; ctr numbers the leaves so
 // that the elements of a SET OF differ.
-func leaf(n *Node, v, ctr int) *VNode {
+func leaf(n *Node, v, ctr int, tf *TimeForm) *VNode {
 	vn := &VNode{N: n, Present: true}
+	if v == 3 {
+		v = 0 // variant 3 (optional members absent, one element) has the leaf values of variant 0
+	}
 	suffix := strconv.Itoa(ctr)
 	k := n.K
 	if k == "any" {
@@ -172,7 +217,13 @@ func leaf(n *Node, v, ctr int) *VNode {
 		}
 	}
 	vn.Tag = universalTag[k]
+	if tf != nil && tf.B != 0 && (k == "utctime" || k == "gentime" || k == "time2050") {
+		// time form of the specification instead of the variant's own time
+		vn.setTimeForm(tf, ctr, k != "utctime")
+		k = "done"
+	}
 	switch k {
+	case "done":
 	case "int", "int32", "int64", "bigint", "enum":
 		nn := *n
 		nn.K = k
@@ -271,14 +322,16 @@ func leaf(n *Node, v, ctr int) *VNode {
 	return vn
 }
 
-// build makes the well-formed value tree of shape n for variant v.
-func build(n *Node, v int, ctr *int) *VNode {
-	if n.has("optional") && v == 1 {
+// build makes the well-formed value tree of shape n for variant v (tf: time form, nil = the variant's own
+// times; ctr numbers the leaves: its start value is the "instance" of the value - same structure and lengths,
+// other leaf contents).
+func build(n *Node, v int, ctr *int, tf *TimeForm) *VNode {
+	if n.has("optional") && (v == 1 || v == 3) {
 		return &VNode{N: n, Present: false}
 	}
 	if n.isLeaf() {
 		*ctr++
-		return leaf(n, v, *ctr)
+		return leaf(n, v, *ctr, tf)
 	}
 	vn := &VNode{N: n, Present: true, Compound: true, Tag: universalTag[n.K]}
 	if n.has("set") {
@@ -290,7 +343,7 @@ func build(n *Node, v int, ctr *int) *VNode {
 	switch n.K {
 	case "struct":
 		for _, k := range n.Kids {
-			vn.Kids = append(vn.Kids, build(k, v, ctr))
+			vn.Kids = append(vn.Kids, build(k, v, ctr, tf))
 		}
 		if want, ok := n.numParam("body"); ok {
 			// length-octet dimension: the specification states the body length, the builder must agree
@@ -303,11 +356,11 @@ func build(n *Node, v int, ctr *int) *VNode {
 			}
 		}
 	case "explicit":
-		vn.Kids = []*VNode{build(n.Kids[0], v, ctr)}
+		vn.Kids = []*VNode{build(n.Kids[0], v, ctr, tf)}
 	default:
-		count := []int{2, 0, 3}[v]
+		count := []int{2, 0, 3, 1}[v]
 		for i := 0; i < count; i++ {
-			vn.Kids = append(vn.Kids, build(n.Kids[0], v, ctr))
+			vn.Kids = append(vn.Kids, build(n.Kids[0], v, ctr, tf))
 		}
 		if n.K == "setof" {
 			// DER: the elements of a SET OF in ascending order of their encodings
@@ -440,6 +493,18 @@ func applyDefect(root *VNode, defect string, path []int) {
 		}
 		c[at], c[at+1] = '1', '3'
 		vn.Content = c
+	case "utcNoSeconds":
+		// YYMMDDhhmmZ: X.680 allows it, DER does not; every decoder reads the seconds as zero
+		c := vn.Content
+		t, err := time.Parse("060102150405Z", string(c))
+		if err != nil {
+			panic(err)
+		}
+		if t.Year() >= 2050 {
+			t = t.AddDate(-100, 0, 0)
+		}
+		vn.Content = append(append([]byte{}, c[:10]...), 'Z')
+		vn.Canon = cTime(t.Truncate(time.Minute))
 	case "genTimeFraction":
 		c := vn.Content
 		vn.Content = append(append(append([]byte{}, c[:len(c)-1]...), '.', '5'), 'Z')
